@@ -16,4 +16,10 @@ instance TopoFrom.decidable (deps : DepFn) : ∀ added l, Decidable (TopoFrom de
     have := TopoFrom.decidable deps (f :: added) rest
     inferInstanceAs (Decidable ((∀ d ∈ deps f, d ∈ added) ∧ TopoFrom deps (f :: added) rest))
 
+/-- Lexicographic `≤` on lists of source positions. -/
+inductive LexLe : List Nat → List Nat → Prop
+  | nil (l) : LexLe [] l
+  | lt {a b : Nat} (as bs) : a < b → LexLe (a :: as) (b :: bs)
+  | eq (a : Nat) {as bs} : LexLe as bs → LexLe (a :: as) (a :: bs)
+
 end Emboss.Deps
